@@ -389,6 +389,30 @@ pub fn run_c18(tier: &str, seed: u64, shard: u64, nshards: u64, scale: f64, stat
     // (4) random bytes and truncated / garbled encodings
     let per = ((if thorough { 400_000.0 } else { 20_000.0 }) * scale) as u64 / nshards;
     for _ in 0..per {
+        if r.chance(1, 12) && !miri {
+            // a long input with one malformed spot close to a multiple of 4096 bytes (block-wise
+            // readers and error-context arithmetic)
+            let mut t = String::from("k: ");
+            let target = r.pick(&[4096usize, 8192, 4096 * 3]) + r.below(9) - 4;
+            let enc = r.below(6);
+            let unit = if enc >= 2 { 2 } else { 1 };
+            while t.len() * unit < target + 64 {
+                t.push(r.pick(&['a', 'b', 'c', ' ', 'x']));
+            }
+            t.push('\n');
+            let mut b = encode(&t, enc);
+            let at = target.min(b.len() - 1);
+            match r.below(3) {
+                0 => b[at] = r.pick(&[0xE4u8, 0xFF, 0x80, 0xD8, 0xDC]),
+                1 => b.truncate(at),
+                _ => b.insert(at, r.pick(&[0xC3u8, 0xD8, 0xF0])),
+            }
+            let trap = r.below(4);
+            check_bytes(&b, trap, stats);
+            stats.cnt("long_inputs_with_malformed_spot", 1);
+            stats.eval(Some(&b));
+            continue;
+        }
         let mut b: Vec<u8> = if r.chance(1, 2) {
             let mut t = String::new();
             for _ in 0..r.range(1, 40) {
@@ -712,7 +736,7 @@ pub fn check_c15(parts: &[String], stats: &mut Stats) {
     let mut alone: Vec<Parsed> = vec![];
     for p in parts {
         let Ok(r) = catch(|| parse_str(p)) else { return };
-        if r.error.is_some() || !(p.ends_with('\n') || p.is_empty()) || p.starts_with('\u{feff}') || p.contains('\0') {
+        if r.error.is_some() || !(p.ends_with('\n') || p.is_empty()) || p.contains('\0') {
             stats.cnt("skipped_part_not_accepted_alone", 1);
             return;
         }
@@ -811,6 +835,10 @@ const STATEFUL: &[&str] = &[
     "[a: b]\n",
     "- [? x]\n",
     "- {x}\n",
+    "\u{feff}k: v\n",
+    "\u{feff}- x\n",
+    "\u{feff}--- a\n",
+    "\u{feff}# c\nq: r\n",
 ];
 
 pub fn run_c15(tier: &str, seed: u64, shard: u64, nshards: u64, scale: f64, stats: &mut Stats) {
